@@ -27,7 +27,7 @@ META = {
         "truth table vf/checks/c18.py:expected_valid is trusted",
     ],
     "required_classes": ["prebound_stale", "accepted", "rejected", "order:named", "order:reversed", "order:distractor", "id_absent", "landmark", "odometry"],
-    "bounds": {"quick": "the complete product named in the property", "thorough": "the same product + id alphabets (negative, sparse, huge) + custom edges with their own is_valid + all 2-edge graphs over consistent/inconsistent edge pairs"},
+    "bounds": {"quick": "the complete product named in the property + id alphabets (negative, sparse, huge) + custom edges with their own is_valid + all ordered 2-edge graphs over a consistent/inconsistent edge alphabet (a bad edge after a good edge of the same kind)", "thorough": "same"},
 }
 
 _VAL = {
@@ -73,10 +73,9 @@ def chunks(tier, seed):
         for count in (1, 2, 3):
             for pt in itertools.product(KINDS, repeat=count):
                 out.append(("prod", edge, list(pt)))
-    if tier == "thorough":
-        out.append(("ids", None, None))
-        out.append(("custom", None, None))
-        out.append(("multi", None, None))
+    out.append(("ids", None, None))
+    out.append(("custom", None, None))
+    out.append(("multi", None, None))
     return out
 
 
